@@ -224,6 +224,34 @@ func runProperty(root, repo string, pc *PropConfig, tier string, seed int, overl
 		only = func(name string) bool { return !knownUnclaimed[name] }
 	}
 	eng.discharge(ro.frs, sv, only)
+	if !baselineMode {
+		// a claimed obligation that came back "unknown" (no model) is tried again with other seeds and three times
+		// the time before it is reported: solver timing is not a property of the code
+		for attempt := 1; attempt <= 2; attempt++ {
+			retry := map[string]bool{}
+			for _, fr := range ro.frs {
+				for _, or := range fr.Obls {
+					if or.Status == "unknown" && expected[or.Name] {
+						retry[or.Name] = true
+						or.Status = "skipped"
+					}
+				}
+			}
+			if len(retry) == 0 {
+				break
+			}
+			sv3 := &Solvers{Timeout: 3 * timeout, Parallel: 8, Seed: seed + 100*attempt}
+			eng.discharge(ro.frs, sv3, func(name string) bool { return retry[name] })
+			for _, fr := range ro.frs {
+				for _, or := range fr.Obls {
+					if retry[or.Name] && or.Status == "skipped" {
+						or.Status = "unknown"
+					}
+				}
+			}
+			ro.notes = append(ro.notes, fmt.Sprintf("NOTE %d claimed obligation(s) answered unknown and were retried (attempt %d)", len(retry), attempt))
+		}
+	}
 	if tier == "thorough" && !baselineMode && len(knownUnclaimed) > 0 {
 		// obligations that did not discharge at baseline are tried again, but with the short timeout: they decide
 		// nothing, they are only reported
